@@ -7,8 +7,8 @@ import (
 
 	"github.com/samber/lo"
 	corev1 "k8s.io/api/core/v1"
-	metav1 "k8s.io/apimachinery/pkg/apis/meta/v1"
 	"k8s.io/apimachinery/pkg/api/resource"
+	metav1 "k8s.io/apimachinery/pkg/apis/meta/v1"
 
 	v1 "sigs.k8s.io/karpenter/pkg/apis/v1"
 	"sigs.k8s.io/karpenter/pkg/cloudprovider"
@@ -41,7 +41,7 @@ type launchInfo struct {
 	Type      *cloudprovider.InstanceType
 	Offering  *cloudprovider.Offering
 	Alloc     corev1.ResourceList
-	Eligible  int // number of (type, offering) pairs the provider could choose from
+	Eligible  int  // number of (type, offering) pairs the provider could choose from
 	Dominates bool // the launched allocatable is >= the allocatable of every other compatible available offering of the type
 }
 
